@@ -39,6 +39,14 @@ API_WORD = re.compile(r"\b\w*ua\d+\w*\b")
 WIDE_WORD = re.compile(widegen.USER_NAME)
 
 
+CHAIN = "qwertzuiopasdfghjklyxcvbnmqwertzuiopasdfghjklyxcvbnm"
+
+
+def chain_names(n):
+    """n names of which each is a proper prefix of the next: under such a renaming any two identifiers are prefix-related"""
+    return [CHAIN[:k] for k in range(1, n + 1)]
+
+
 def legal_target(name):
     return (re.match(r"^[A-Za-z_][A-Za-z0-9_]*$", name) and name not in MAMBA_KEYWORDS and not keyword.iskeyword(name)
             and name != "_")
@@ -52,6 +60,8 @@ def _case(draw, allow_capturable, allow_context_names=True):
     pool = [n for n in ORDINARY + TRICKY + (CAPTURABLE if allow_capturable else []) if legal_target(n)
             and (allow_context_names or n not in ("Generic", "collection_iter"))]
     order = draw(st.permutations(pool))
+    if draw(st.integers(0, 3)) == 0:
+        order = list(draw(st.permutations([c for c in chain_names(min(len(names), 40)) if legal_target(c)]))) + list(order)
     mapping = {}
     tricky_used = 0
     k = 0
@@ -61,7 +71,7 @@ def _case(draw, allow_capturable, allow_context_names=True):
             k += 1
             # exception classes and classes stay classes: any legal identifier is allowed as class name
             mapping[nm] = tgt
-            if tgt in TRICKY or tgt in CAPTURABLE:
+            if tgt in TRICKY or tgt in CAPTURABLE or CHAIN.startswith(tgt):
                 tricky_used += 1
     return {"src": src, "mapping": mapping, "tricky": tricky_used, "annotate": draw(st.booleans())}
 
@@ -81,6 +91,8 @@ def _word_case(draw, kind, allow_capturable, allow_context_names=True):
     pool = list(dict.fromkeys(pool))
     head = draw(st.permutations(pool[:len(PREFIXY)])) if prefixy else []
     order = list(head) + list(draw(st.permutations(pool[len(head):])))
+    if draw(st.integers(0, 3)) == 0:
+        order = list(draw(st.permutations([c for c in chain_names(min(len(words), 40)) if legal_target(c)]))) + order
     mapping, tricky_used, k = {}, 0, 0
     for w in words:
         if draw(st.integers(0, 99)) < 75 and k < len(order):
@@ -91,7 +103,7 @@ def _word_case(draw, kind, allow_capturable, allow_context_names=True):
                 if not legal_target(tgt) or tgt in mapping.values():
                     continue
             mapping[w] = tgt
-            if tgt in TRICKY or tgt in CAPTURABLE or tgt in PREFIXY:
+            if tgt in TRICKY or tgt in CAPTURABLE or tgt in PREFIXY or CHAIN.startswith(tgt.lower()):
                 tricky_used += 1
     return {"src": src, "mapping": mapping, "tricky": tricky_used, "annotate": draw(st.booleans()), "words": kind}
 
@@ -188,7 +200,8 @@ class C15:
             "emits) and an injective renaming of ~70% of them into a pool of ordinary names and names that resemble internal or "
             "Python-special names (size, init, super, typing, abc, Optional, Union, Callable, NewType, ABC, abstractmethod, "
             "Generic, err, it, G0, T, x1, x_1, cls, args, object, Tuple, Any, _private, ...) and, in half of the API / WideGen cases, chains "
-            "of names of which one is a prefix of the next (s, si, siz, size, ...; res, result, results); Mamba keywords, documented specials "
+            "of names of which one is a prefix of the next (s, si, siz, size, ...; res, result, results), and in a quarter of all cases a "
+            "renaming under which ANY two renamed identifiers are prefix-related (q, qw, qwe, qwer, ...); Mamba keywords, documented specials "
             "and Python hard keywords excluded. The renaming is applied to the Mamba text and, for comparison, to the Python text. "
             "Oracle: (a) same verdict; (b) ast(rename(out(P))) == ast(out(rename P)); (c) no capture: no target name that the "
             "renamed program binds is an identifier that out(P) uses without P having chosen it. Non-trivial: accepted and >=1 "
